@@ -14,13 +14,15 @@ use std::panic::AssertUnwindSafe;
 use std::sync::atomic::{AtomicU64, Ordering};
 use std::sync::Arc;
 
-pub const NAMES: [&str; 26] = [
+pub const NAMES: [&str; 33] = [
     "a", "", "0", "7", "+5", "-1", "0007", "18446744073709551615", "18446744073709551616", " 5", "5 ", "0x1",
     "٣", "x-y", "+", "+-5",
     // spellings longer than the digit count of usize::MAX whose VALUE still fits (or not)
     "+18446744073709551615", "000000000000000000000000000001", "018446744073709551615", "+018446744073709551616", "1_000",
     // more sign shapes
     "++5", "5+", "+ 5", "++", "-0",
+    // digits of other scripts / classes (full-width, Bengali, superscript, Roman numeral), alone and mixed with ASCII digits
+    "１２", "1２", "+１", "৭", "²", "Ⅷ", "1²",
 ];
 
 pub fn push_lists() -> Vec<Vec<R>> {
@@ -279,7 +281,15 @@ pub fn replay_case(c: &J) -> Result<(), String> {
         let init = R::from_json(&c["init"]);
         let cs: Vec<R> = c["list"].as_array().map(|a| a.iter().map(R::from_json).collect()).unwrap_or_default();
         let mut t = init.build();
-        let real = t.push_components(cs.iter().map(|c| c.build())).map_err(|_| ());
+        let built: Vec<Term> = cs.iter().map(|c| c.build()).collect();
+        let real = match c["supply"].as_u64() {
+            Some(1) => t.push_components(built.into_iter().filter(|_| true)).map_err(|_| ()),
+            Some(2) => {
+                let mut it = built.into_iter();
+                t.push_components(std::iter::from_fn(move || it.next())).map_err(|_| ())
+            }
+            _ => t.push_components(built).map_err(|_| ()),
+        };
         let after = R::canon_of_term(&t);
         let expect: Result<R, ()> = match init.tag.shape() {
             Shape::Seq | Shape::Image | Shape::Set => {
@@ -303,7 +313,7 @@ pub fn replay_case(c: &J) -> Result<(), String> {
 pub fn run(run: &Run) {
     run.rule(
         "initial states: one term per constructor (images at index 0/1/n and empty); actions: \
-         set_atom_name over 26 strings (empty, signed, leading zeros, usize::MAX, overflow, padded, \
+         set_atom_name over 33 strings (empty, signed, leading zeros, usize::MAX, overflow, padded, \
          hex, non-ASCII digit, dashed) and push_components over 8 lists (empty, 1, 2, duplicate, \
          existing element, placeholder, compound); one-step sweeps: old name x new name over 22 related names x 5 kinds; push of [x], [x,A], [A,x], [x,x] for a representative x of every constructor (and the target itself) onto every initial term; stateright BFS to depth 3 (5 thorough) over the \
          real term, deduplicated on its canonical form; every transition compared with the \
@@ -345,9 +355,9 @@ pub fn run(run: &Run) {
             &[],
         );
     }
-    // wide but shallow: EVERY string of length <= 4 over {+ - 0 7 9 space a _} as a new name, on every
+    // wide but shallow: EVERY string of length <= 4 over {+ - 0 7 9 space a _ full-width-3} as a new name, on every
     // initial term (one step), against the same reference model
-    let alpha = ['+', '-', '0', '7', '9', ' ', 'a', '_'];
+    let alpha = ['+', '-', '0', '7', '9', ' ', 'a', '_', '３'];
     let mut names: Vec<String> = vec![String::new()];
     let mut cur: Vec<String> = vec![String::new()];
     for _ in 0..4 {
@@ -447,6 +457,31 @@ pub fn run(run: &Run) {
             let mut t = init.build();
             let before = R::canon_of_term(&t);
             let built: Vec<Term> = cs.iter().map(|c| c.build()).collect();
+            // the same list supplied through iterators of other shapes (size_hint (0, Some n),
+            // (0, None)) must give the same outcome and post-state as the Vec
+            for mode in 1..3 {
+                let mut t2 = init.build();
+                let b2 = built.clone();
+                let r2 = quiet_catch(AssertUnwindSafe(|| match mode {
+                    1 => t2.push_components(b2.into_iter().filter(|_| true)).map_err(|_| ()),
+                    _ => {
+                        let mut it = b2.into_iter();
+                        t2.push_components(std::iter::from_fn(move || it.next())).map_err(|_| ())
+                    }
+                }));
+                let mut t1 = init.build();
+                let b1 = built.clone();
+                let r1 = quiet_catch(AssertUnwindSafe(|| t1.push_components(b1).map_err(|_| ())));
+                push_cases += 1;
+                if r1 != r2 || R::canon_of_term(&t1) != R::canon_of_term(&t2) {
+                    let shown: Vec<String> = cs.iter().map(|c| c.show()).collect();
+                    run.violation(
+                        &format!("start {} ; push_components({shown:?}) supplied through a {} iterator gives {:?} / {} but through a Vec gives {:?} / {}", init.show(), if mode == 1 { "filter" } else { "from_fn" }, r2, R::canon_of_term(&t2).show(), r1, R::canon_of_term(&t1).show()),
+                        json!({"op": "push_once", "init": init.to_json(), "list": cs.iter().map(|c| c.to_json()).collect::<Vec<_>>(), "supply": mode}),
+                        &[],
+                    );
+                }
+            }
             let real = quiet_catch(AssertUnwindSafe(|| t.push_components(built.into_iter()).map_err(|_| ())));
             let after = R::canon_of_term(&t);
             let expect: Result<R, ()> = match init.tag.shape() {
